@@ -79,6 +79,7 @@ Partial in this sense: real thread interleavings are only sampled by the harness
 -/
 import Compass.Proofs.Batch
 import Compass.Proofs.BatchEntry
+import Compass.Proofs.Cli
 
 namespace Compass
 namespace C06
@@ -946,6 +947,134 @@ theorem build_reports_first_failing_stage (fails : String → Bool) :
 
 example : firstFailure (fun s => s == "input_plugins" || s == "parallelism") = some "input_plugins" := by
   decide +kernel
+
+/-! ## the command-line entry (`app/cli/run.rs`): how batches reach `CompassApp::run`
+
+`run_newline_json` cuts the lines of the query file into chunks of `chunksize` lines (`itertools::chunks`) and
+hands the lines of a chunk that parse to one `CompassApp::run`; `run_json` reads the file as ONE document and hands
+`get_queries` of it to one `run`.  Model: `Model/Cli.lean`; the batch runner is a parameter, instantiated with
+`callO`.  Run against the real `command_line_runner` by the `cli` stream of harness/src/c06/cli.rs. -/
+
+/-- **(b) chunking is a partition of the lines**, for every chunk size `n ≥ 1` (what `validate` lets through) and
+every file: the chunks joined are the lines in file order, no chunk is empty, none is longer than `n`, and every
+chunk but the last holds exactly `n` lines -/
+theorem cli_chunks_partition {α : Type} (n : Nat) (hn : 1 ≤ n) (l : List α) :
+    (chunks n l).flatten = l ∧
+    (∀ c ∈ chunks n l, c ≠ [] ∧ c.length ≤ n) ∧
+    (∀ i, i + 1 < (chunks n l).length → ∃ c, (chunks n l)[i]? = some c ∧ c.length = n) :=
+  ⟨chunks_flatten n hn l, Cli.chunks_mem n hn l, Cli.chunks_full n hn l⟩
+
+/-- … so every line that parses is handed to exactly one `run`, in file order: the batches of the chunks,
+joined, are the parsable lines of the file -/
+theorem cli_every_parsable_line_in_one_batch (n : Nat) (hn : 1 ≤ n) (lines : List (Option Json)) :
+    ((chunks n lines).map Cli.chunkBatch).flatten = lines.filterMap id := by
+  rw [Cli.chunkBatch_flatten, chunks_flatten n hn]
+  rfl
+
+/-- **(c) which chunk a line is in depends on its position alone**: chunking commutes with every map over the
+lines — whether a line parses, and to what, moves no other line into another chunk -/
+theorem cli_chunking_ignores_line_content {α β : Type} (f : α → β) (n : Nat) (l : List α) :
+    chunks n (l.map f) = (chunks n l).map (List.map f) :=
+  Cli.chunks_map f n l
+
+/-- … and inside its chunk a line that does not parse changes nothing but the count of reported lines: the
+chunk's batch is the batch without it, it is counted once; a line that parses is never counted -/
+theorem cli_unparsable_line_in_chunk (pre post : List (Option Json)) :
+    Cli.chunkBatch (pre ++ none :: post) = Cli.chunkBatch (pre ++ post) ∧
+    Cli.chunkBad (pre ++ none :: post) = Cli.chunkBad (pre ++ post) + 1 ∧
+    (∀ v, Cli.chunkBad (pre ++ some v :: post) = Cli.chunkBad (pre ++ post) ∧
+          Cli.chunkBatch (pre ++ some v :: post) = Cli.chunkBatch pre ++ v :: Cli.chunkBatch post) := by
+  refine ⟨?_, ?_, ?_⟩
+  · simp [Cli.chunkBatch, List.filterMap_append]
+  · simp [Cli.chunkBad, List.filter_append]; omega
+  · intro v
+    constructor
+    · simp [Cli.chunkBad, List.filter_append]
+    · simp [Cli.chunkBatch, List.filterMap_append]
+
+/-- **`run_newline_json` when every run succeeds** (any batch runner): one run per chunk, in order, on the chunk's
+parsable lines; the call is `Ok`; **every unparsable line is reported exactly once** — the reports add up to the
+number of lines that do not parse -/
+theorem cli_newline_json_all_chunks_run {ε ρ : Type} (run : List Json → MultiSet.Outcome (Except ε ρ))
+    (r : List (Option Json) → ρ) (n : Nat) (hn : 1 ≤ n) (doc : Option Json) (lines : List (Option Json))
+    (hok : ∀ c ∈ chunks n lines, run (Cli.chunkBatch c) = .ok (.ok (r c))) :
+    ∃ o, Cli.runNewlineJsonO run (some n) (.content doc lines) = .ok o ∧
+      o.result = .ok () ∧
+      o.log.map (·.served) = (chunks n lines).map r ∧
+      (o.log.map (·.parseErrors)).sum = (lines.filter Option.isNone).length := by
+  have hn0 : n ≠ 0 := by omega
+  refine ⟨_, by simp only [Cli.runNewlineJsonO, Option.getD_some, Cli.itChunksO, hn0, if_false];
+                 exact Cli.runChunksO_all_ok run r _ hok, rfl, ?_, ?_⟩
+  · simp [List.map_map, Function.comp_def]
+  · have := Cli.chunkBad_sum (chunks n lines)
+    rw [chunks_flatten n hn] at this
+    simp only [List.map_map]
+    exact this
+
+/-- **One response for every parsable line, through the command line** (`--chunksize n --newline-delimited`, the
+application persisting its responses, a per-run configuration that parses, a sink that works, parallelism `≥ 1`):
+whatever the chunk size and whichever lines do not parse, the call is `Ok`, makes one run per chunk, and the
+responses of all runs together are — as a multiset — the per-query answers of the parsable lines: chunking and
+unparsable neighbours lose, duplicate and alter nothing -/
+theorem cli_one_response_per_parsable_line {α : Type} (W : WOps α) (env : String → Bool × Bool) (app : App)
+    (runCfg : Option Json) (respond : Json → Json) (o : RunOverrides)
+    (hp : parseRunConfig env runCfg = some o) (hb : buildSink (o.policy.getD app.policy) = .ok ())
+    (hw : sinkFails (o.policy.getD app.policy) = false) (hpar : 1 ≤ (app.config o).parallelism)
+    (hpersist : (app.config o).persist = true)
+    (n : Nat) (hn : 1 ≤ n) (doc : Option Json) (lines : List (Option Json)) :
+    ∃ out, Cli.runNewlineJsonO (callO W env app runCfg respond) (some n) (.content doc lines) = .ok out ∧
+      out.result = .ok () ∧
+      out.log.length = (chunks n lines).length ∧
+      (out.log.map (·.served)).flatten.Perm (answers app.plugins respond (lines.filterMap id)) := by
+  have hcall : ∀ batch, ∃ out, callO W env app runCfg respond batch = .ok (.ok out) ∧
+      out.Perm (answers app.plugins respond batch) := by
+    intro batch
+    have := call_multiset W env app runCfg respond batch o hp hb hw hpar
+    rw [hpersist] at this
+    simpa using this
+  let r : List (Option Json) → List Json := fun c => Classical.choose (hcall (Cli.chunkBatch c))
+  have hr : ∀ c, callO W env app runCfg respond (Cli.chunkBatch c) = .ok (.ok (r c)) ∧
+      (r c).Perm (answers app.plugins respond (Cli.chunkBatch c)) :=
+    fun c => Classical.choose_spec (hcall (Cli.chunkBatch c))
+  obtain ⟨out, h1, h2, h3, _⟩ := cli_newline_json_all_chunks_run (callO W env app runCfg respond) r n hn doc lines
+    (fun c _ => (hr c).1)
+  refine ⟨out, h1, h2, ?_, ?_⟩
+  · have := congrArg List.length h3
+    simpa using this
+  · rw [h3, ← cli_every_parsable_line_in_one_batch n hn lines]
+    generalize chunks n lines = cs
+    induction cs with
+    | nil => exact List.Perm.refl _
+    | cons c cs ih =>
+      simp only [List.map_cons, List.flatten_cons]
+      have : answers app.plugins respond (Cli.chunkBatch c ++ (cs.map Cli.chunkBatch).flatten)
+          = answers app.plugins respond (Cli.chunkBatch c)
+            ++ answers app.plugins respond (cs.map Cli.chunkBatch).flatten := by
+        simp [answers, List.flatMap_append]
+      rw [this]
+      exact List.Perm.append (hr c).2 ih
+
+/-- `run_json`: the document is the batch — `get_queries` of it is handed to ONE run, whose result is the call's -/
+theorem cli_run_json_spec {ε ρ : Type} (run : List Json → MultiSet.Outcome (Except ε ρ)) (v : Json)
+    (lines : List (Option Json)) :
+    (getQueries v = none →
+      Cli.runJsonO run (.content (some v) lines) = .ok { log := [], result := .error .notABatch }) ∧
+    (∀ batch res, getQueries v = some batch → run batch = .ok (.ok res) →
+      Cli.runJsonO run (.content (some v) lines)
+        = .ok { log := [{ served := res, parseErrors := 0 }], result := .ok () }) ∧
+    (∀ batch e, getQueries v = some batch → run batch = .ok (.error e) →
+      Cli.runJsonO run (.content (some v) lines) = .ok { log := [], result := .error (.run e) }) := by
+  refine ⟨?_, ?_, ?_⟩
+  · intro h; simp only [Cli.runJsonO, h]
+  · intro batch res h hr; simp only [Cli.runJsonO, h, hr]
+  · intro batch e h hr; simp only [Cli.runJsonO, h, hr]
+
+-- non-vacuity: seven lines in chunks of three — two full chunks and a rest; the second and the fifth line do not
+-- parse: the batches are the other lines in file order, each chunk reports its own unparsable lines
+example : chunks 3 [1, 2, 3, 4, 5, 6, 7] = [[1, 2, 3], [4, 5, 6], [7]] := by decide
+example :
+    (chunks 3 [some Json.null, none, some (.bool true), some (.bool false), none, some .null, some .null]).map
+      (fun c => ((Cli.chunkBatch c).length, Cli.chunkBad c)) = [(2, 1), (2, 1), (1, 0)] := by decide
 
 end C06
 end Compass
